@@ -23,7 +23,7 @@ type KnownFindings struct{ Entries []KnownFinding }
 
 func LoadKnownFindings() *KnownFindings {
 	k := &KnownFindings{}
-	b, err := os.ReadFile(filepath.Join(root(), "known_findings.json"))
+	b, err := os.ReadFile(knownPath())
 	if err != nil {
 		return k
 	}
@@ -54,4 +54,16 @@ func (k *KnownFindings) Open(prop string) []KnownFinding {
 		}
 	}
 	return out
+}
+
+// knownPath: the committed known-findings file lives in the harness home
+// (/verif), independent of VERIF_ROOT (which only redirects run-time output).
+func knownPath() string {
+	if p := os.Getenv("VERIF_KNOWN"); p != "" {
+		return p
+	}
+	if h := os.Getenv("VERIF_HOME"); h != "" {
+		return filepath.Join(h, "known_findings.json")
+	}
+	return "/verif/known_findings.json"
 }
